@@ -377,6 +377,45 @@ fn gen_specdir(r: &mut Rng, sw: &Swarm) -> Vec<FileSpec> {
     out
 }
 
+/// Sometimes: a process directory that is a link to a sibling process directory (two process
+/// types sharing one set of files), or a variable file that is a link to another variable file.
+fn gen_specdir_links(r: &mut Rng, files: &[FileSpec]) -> Vec<LinkSpec> {
+    let mut out = Vec::new();
+    if !r.chance(1, 3) {
+        return out;
+    }
+    let has = |prefix: &[u8]| files.iter().any(|f| f.path.starts_with(prefix));
+    for (dir, other) in [("env.launch/web/", "worker"), ("env.launch/worker/", "web")] {
+        if has(dir.as_bytes()) && !has(format!("env.launch/{other}/").as_bytes()) && r.bool() {
+            let target = dir.trim_start_matches("env.launch/").trim_end_matches('/');
+            out.push(LinkSpec {
+                path: format!("env.launch/{other}").into_bytes(),
+                target: if r.bool() { target.as_bytes().to_vec() } else { format!("../env.launch/{target}").into_bytes() },
+            });
+        }
+    }
+    if r.bool() {
+        // a variable file shared between two scopes: same directory depth, sibling scope dir
+        if let Some(f) = files.iter().find(|f| f.path.starts_with(b"env/")) {
+            let name = &f.path[4..];
+            if has(b"env.build/") && !files.iter().any(|g| g.path.strip_prefix(b"env.build/".as_slice()).is_some_and(|n| n == name || crate::e1::generate::same_var(n, name))) {
+                let mut path = b"env.build/".to_vec();
+                path.extend_from_slice(name);
+                let mut target = b"../env/".to_vec();
+                target.extend_from_slice(name);
+                out.push(LinkSpec { path, target });
+            }
+        }
+    }
+    out
+}
+
+/// NAME and NAME.override denote the same (behaviour, variable) pair.
+pub fn same_var(a: &[u8], b: &[u8]) -> bool {
+    let strip = |n: &[u8]| -> Vec<u8> { n.strip_suffix(b".override".as_slice()).unwrap_or(n).to_vec() };
+    strip(a) == strip(b)
+}
+
 fn layer_names(r: &mut Rng, n: usize) -> Vec<String> {
     const POOL: [&str; 10] = ["a", "b-1", "layer_x", "z9", "node", "deps", "x_y-z", "0", "tool", "cache-me"];
     let mut names: Vec<String> = Vec::new();
@@ -707,10 +746,11 @@ pub fn gen_history(seed: u64, class: Class, max_steps: usize) -> (History, Swarm
                     which: g.r.usize(4),
                     kind: *g.r.pick(&PATH_KINDS),
                 }),
-                K_SPECDIR => batch.push(Op::SpecDir {
-                    layer,
-                    files: gen_specdir(&mut g.r, &sw),
-                }),
+                K_SPECDIR => {
+                    let files = gen_specdir(&mut g.r, &sw);
+                    let links = gen_specdir_links(&mut g.r, &files);
+                    batch.push(Op::SpecDir { layer, files, links });
+                }
                 K_TOPLINK => {
                     // immediately followed by a deleting request on that layer
                     batch.push(Op::TopSymlink {
